@@ -19,6 +19,7 @@
             &&& nfa.match_kind == self.match_kind
             &&& nfa_tree(nfa) && nfa_links(nfa, lm_of(self.match_kind)) && nfa_outs_ok(nfa)
             // C15: the states >= 2 are exactly the non-empty prefixes of the registered patterns
+            &&& sound_facts(nfa)
             &&& trie_ok(nfa) && reach_ok(nfa) && add_inv(nfa) && seen_is(nfa, into_items(patvals), into_items(patvals).len() as int)
             // C06: registered patterns carry the value of their pair; standard kind: the (assumed) Aho-Corasick contract of the passes
             &&& values_are(nfa, into_items(patvals), into_items(patvals).len() as int)
@@ -113,6 +114,7 @@
         assert(passes_frame(n_a, nfa));
         lemma_frame_keeps_trie(n_a, nfa);
         lemma_frame_keeps_add_inv(n_a, nfa);
+        lemma_sound_facts_intro(nfa);
         lemma_frame_keeps_values(n_a, nfa, items, items.len() as int);
         assert(fails_ok(nfa, lm_of(self.match_kind))) by { lemma_links_same_fail(n_f, nfa, lm_of(self.match_kind)); }
         lemma_trie_gives_tree(nfa);
